@@ -37,12 +37,14 @@ def failing(base_cls, counter):
     class Failing(base_cls):
         _verif_counter = counter
 
-        def fit(self, *a, **k):
+        def fit(self, X, y=None, sample_weight=None):
             c = type(self)._verif_counter
             c.n += 1
             if c.fail_at is not None and c.n == c.fail_at:
                 raise InjectedFailure("injected failure at inner fit #%d" % c.n)
-            return super().fit(*a, **k)
+            if sample_weight is None:
+                return super().fit(X, y)
+            return super().fit(X, y, sample_weight=sample_weight)
     Failing.__name__ = base_cls.__name__
     Failing.__qualname__ = base_cls.__qualname__
     return Failing
